@@ -40,7 +40,7 @@ LIMITS = [255, 256, 257, 1023, 4095, 4096, 65535, 1048575]
 
 # ------------------------------------------------------------------ (a) libFuzzer
 def build_target(run, fb):
-    exe = os.path.join(run.dir, "fuzz_exec")
+    exe = os.path.join(run.dir, "fuzz_exec-" + fb["name"])
     libdir = os.path.dirname(fb["lib"])
     # everything the sandboxed (uid 65534) fuzz process needs lives in the world-readable run directory
     fzlib = os.path.join(run.dir, "fzlib")
@@ -104,7 +104,7 @@ def classify_report(out):
         kind = "hang"
     frame = ""
     for ln in out.split(b"\n"):
-        m = re.search(rb"#\d+ 0x[0-9a-f]+ in (\S+) .*?/src-fuzz/(\S+?):(\d+)", ln)
+        m = re.search(rb"#\d+ 0x[0-9a-f]+ in (\S+) .*?/src-fuzz(?:-nts)?/(\S+?):(\d+)", ln)
         if m and b"fuzz_exec" not in ln:
             frame = "%s@%s" % (m.group(1).decode(), m.group(2).decode())
             break
@@ -119,9 +119,10 @@ def has_option(unit):
     return b"[snoopy]" in unit and any(o in unit for o in OPTS)
 
 
-def fuzz_phase(ctx, fb):
+def fuzz_phase(ctx, fb, fb_nts=None):
     run = ctx.run
     exe = build_target(run, fb)
+    exe_nts = build_target(run, fb_nts) if fb_nts else exe
     nw = 16
     budget = int(os.environ.get("VERIF_FUZZ_SECONDS", "0")) or (40 if ctx.quick else 900)
     procs = []
@@ -149,7 +150,9 @@ def fuzz_phase(ctx, fb):
         for d_ in (wd, corp, art):
             os.chmod(d_, 0o777)
         subprocess.run(["chmod", "-R", "a+rwX", wd])
-        cmd = box(run, i, [exe, "-seed=%d" % (ctx.seed * 100 + i + 1), "-max_total_time=%d" % budget, "-max_len=8192", "-timeout=30",
+        # every fourth worker fuzzes the non-thread-safe build (static configuration/input storage, state carried between calls)
+        wexe = exe_nts if i % 4 == 2 else exe
+        cmd = box(run, i, [wexe, "-seed=%d" % (ctx.seed * 100 + i + 1), "-max_total_time=%d" % budget, "-max_len=8192", "-timeout=30",
                            "-detect_leaks=0", "-rss_limit_mb=4096", "-dict=" + os.path.join(run.dir, "C02.dict"), "-artifact_prefix=" + art + "/",
                            "-print_final_stats=1", "-use_value_profile=%d" % (i % 2), corp])
         log = open(os.path.join(wd, "log.txt"), "wb")
@@ -198,17 +201,18 @@ def fuzz_phase(ctx, fb):
         for a in sorted(glob.glob(os.path.join(wd, "art", "*"))):
             base = os.path.basename(a)
             if base.startswith(("crash-", "timeout-")):
-                crashed, hung, out = run_unit(run, exe, i, a)
+                uexe = exe_nts if i % 4 == 2 else exe
+                crashed, hung, out = run_unit(run, uexe, i, a)
                 if base.startswith("timeout-"):
                     # load noise unless it hangs every time
-                    again = [run_unit(run, exe, i, a)[1] for _ in range(2)]
+                    again = [run_unit(run, uexe, i, a)[1] for _ in range(2)]
                     if not (hung and all(again)):
                         ctx.inconclusive.append("timeout unit did not reproduce 3/3: " + base)
                         continue
                 elif not crashed:
                     ctx.inconclusive.append("crash unit did not reproduce: " + base)
                     continue
-                report_unit(ctx, run, exe, a, out, "found by fuzzing worker %d" % i)
+                report_unit(ctx, run, uexe, a, out, "found by fuzzing worker %d%s" % (i, " (non-thread-safe build)" if uexe is exe_nts and exe_nts is not exe else ""))
     ctx.evaluations += execs
     ctx.extra["fuzz_executions"] = execs
     ctx.extra["fuzz_corpus_units"] = units
@@ -377,14 +381,14 @@ def main():
         else:
             print("replay: property holds for this input")
         ctx.finish()
-    fb, ab = ctx.run.build_many(["fuzz", "ts-asan"])
+    fb, fbn, ab = ctx.run.build_many(["fuzz", "fuzz-nts", "ts-asan"])
     ctx.assumptions = ["absence of findings is not a proof: coverage-guided search over inputs up to 8 KiB",
                        "the fuzz target runs as uid 65534 in a private mount namespace where every world-writable directory is an empty "
                        "tmpfs, so fuzzed output paths cannot touch the system; data sources whose input the harness cannot shape (utmp, "
                        "/etc/hosts) see the sandbox's values",
                        "allocation failure and invalid pointers are outside the domain"]
     if not ctx.replay:
-        fuzz_phase(ctx, fb)
+        fuzz_phase(ctx, fb, fbn)
     nw, per = (4, 500) if ctx.quick else (16, 4000)
     pbt.run(ctx, {"ts-asan": ab}, strategy, evaluate, classify, nw, per)
     ctx.finish()
